@@ -96,7 +96,15 @@ int backup_copy_file(const char *filename, const vector<UINT8> &data)
       size_t retval   = fwrite(data.data(), data.size(), 1, thefile);
       int    my_errno = errno;
 
-      fclose(thefile);
+      // buffered data is written when the stream is closed: a failing fclose() means an incomplete backup
+      if (  fclose(thefile) != 0
+         && (  retval == 1
+            || data.empty()))
+      {
+         LOG_FMT(LERR, "fclose(%s) failed: %s (%d)\n",
+                 newpath, strerror(errno), errno);
+         exit(EX_SOFTWARE);
+      }
 
       if (  retval == 1
          || data.empty())
